@@ -50,6 +50,15 @@ MISSED_AT_FIRST = {
  "C18-5": "needs threads; the Windows string driver got a threaded mode under ThreadSanitizer (four threads, different command lines, each result compared with the single-threaded one)",
  "C20-5": "caught by C02/C11/C14 (descriptors of the fork-mode child) but C20's families had no fork mode; scenario 4 of the interleaving family: the second thread starts a fork-mode child",
  "C20-6": "the shared-child round of the thread program read with reproc_read only; a second round reads with reproc_drain while the writer pauses",
+ # round 5 (clause by clause, untouched functions, boundary values, unusual environments)
+ "C02-7": "shows only for a caller running without two of its standard descriptors; the behavioural families assumed all three open; every k-th script of the stream, restart and life families is now also replayed by a caller whose stdin and stdout are closed (same predictions, descriptor count offset)",
+ "C04-8": "caught by C03 (wrong program executed) but the key was not attributed to C04; 'the requested program really was executed' is C04's clause too",
+ "C07-8": "needs kill() to fail; a child that cannot be signalled (EPERM) added to the model, the simulated kernel and the stop family: the failed action's error ends the sequence",
+ "C10-7": "the simulated FILE for descriptors 0-2 was a stand-in object, so code comparing against stdin/stdout/stderr never matched; the harness now passes the C library's own objects",
+ "C12-7": "signal() / __sysv_signal() were outside the seam (infrastructure error) and only the kind of a disposition was observed; flags and mask of the caller's handlers are now tracked (a handler whose flags or mask changed is reported as a different disposition), start-up input with handlers installed added to the env family",
+ "C13-8": "only positive out-of-range redirect types were enumerated; negative ones added (late rejection allowed, success or another error is not)",
+ "C15-7": "the destroy family had no fork mode; added (the forked child destroys its copy and lives on)",
+ "C18-8": "no start under a failing allocation or with unconvertible input was enumerated for the Windows code; 'fault' mode added (k-th allocation fails, invalid UTF-8): no process may be created, a surviving start must pass exactly what was asked",
 }
 
 
